@@ -234,6 +234,12 @@ def gen_cases_raw(ctx):
             arrays["timestamps"] = stamps(r, n)
         if r.random() < 0.3:
             arrays["distances_from_start"] = [abs(hard_double(r)) for _ in range(n)]
+        case_fl = None
+        if r.random() < 0.35:
+            # a matrix-valued entry (evo stores the 4x4 alignment transformation): every entry comes back in its own place,
+            # whatever the memory order of the array that was stored (column-major / a transposed view included)
+            arrays["alignment_transformation_sim3"] = [[hard_double(r) for _ in range(4)] for _ in range(r.choice([4, 4, 3]))]
+            case_fl = r.choice(["fortran", "fortran", "noncontig", None])
         trajs = {}
         if r.random() < 0.7:
             trajs["traj_est"] = {"type": "tum", **gen_traj(r, n)}
@@ -242,7 +248,7 @@ def gen_cases_raw(ctx):
             if r.random() < 0.3:
                 trajs["path"] = {"type": "kitti", "mats": gen_mats(r, n)}
         yield {"kind": "result", "variant": r.choice(["h", "p"]), "load_traj": r.random() < 0.6, "info": info, "stats": statsd,
-               "arrays": arrays, "trajs": trajs}
+               "arrays": arrays, "trajs": trajs, **({"array_flavour": case_fl} if case_fl else {})}
     tnames = ["traj_est", "traj_ref", "位置", "tr é", "a.b", ".hidden", "x.tum", "y.npy", "z.kitti", "名前 with space",
               "emoji\U0001F600", "UPPER.TUM", "t.", "info.json", "stats", "1e3", "-1", "traj_est ", " traj_est", "..", ".", "a..b", "CON", "*", "a\\b",
               "traj_est.tum.tum", "0", "nan", "TRAJ_EST", "tab\there", "b.kitti.npy"]
@@ -968,7 +974,9 @@ def judge_result(ctx, c, impl, outs):
         for k, v in od(c, "arrays"):
             a = impl["arrays"][k]
             want_dtype = {"int": "int64", "f32": "float32"}.get(c.get("array_flavour"), "float64")
-            if a["dtype"] != want_dtype or a["shape"] != [len(v)] or a["bits"] != [tf.bits(x) for x in v]:
+            want_shape = [len(v), len(v[0])] if v and isinstance(v[0], list) else [len(v)]
+            flat = [x for row in v for x in row] if v and isinstance(v[0], list) else v        # entry (i, j) in its own place
+            if a["dtype"] != want_dtype or a["shape"] != want_shape or a["bits"] != [tf.bits(x) for x in flat]:
                 ctx.fail(c, "lossless-arrays", f"array {k}: dtype {a['dtype']} shape {a['shape']}, or values differ")
     if c["load_traj"]:
         if set(impl["trajs"]) != set(c["trajs"]):
